@@ -112,8 +112,13 @@ pub fn local_of(raw: u64) -> Option<usize> {
     world(|w| w.raw2local.get(&raw).copied())
 }
 
+/// u32::MAX stands for the largest Duration there is
 fn ms(d: u32) -> Duration {
-    Duration::from_millis(d as u64)
+    if d == u32::MAX {
+        Duration::MAX
+    } else {
+        Duration::from_millis(d as u64)
+    }
 }
 
 // ------------------------------------------------------------------ the scripted actor
@@ -684,7 +689,10 @@ async fn exec(cx: &mut Cx<'_>, st: &Step) {
                 Got::Temp(H::Strong(r)) => Some(r),
                 _ => None,
             };
-            let (op, raw) = op_start(OpK::Send(SendKind::Ask), r.as_ref().map(|r| r.identity()), Some(msg.id), *slot, "join");
+            // "join-room": the mailbox has a free slot right now, so the first poll of the ask (made by join! before
+            // the other branch runs) puts the envelope into the mailbox
+            let room = r.as_ref().map(|r| r.verif_mailbox_len() < r.verif_mailbox_capacity()).unwrap_or(false);
+            let (op, raw) = op_start(OpK::Send(SendKind::Ask), r.as_ref().map(|r| r.identity()), Some(msg.id), *slot, if room { "join-room" } else { "join" });
             if let Some(r) = r {
                 let fa = async {
                     let res = rep(r.ask(Msg { spec: msg.clone(), carried: None }).await, raw);
@@ -698,6 +706,42 @@ async fn exec(cx: &mut Cx<'_>, st: &Step) {
             } else {
                 op_end(op, Res::NoHandle);
             }
+        }
+        Step::SpawnAsk { slot, msg } => {
+            let got = resolve(cx, *slot);
+            let h: &H = match &got {
+                Got::Local(h) => h,
+                Got::Temp(h) => h,
+                _ => &H::None,
+            };
+            let ident = h.identity();
+            let m = Msg { spec: msg.clone(), carried: None };
+            let fut: Option<std::pin::Pin<Box<dyn Future<Output = rsactor::Result<Rep>> + Send>>> = match h {
+                H::Strong(r) => {
+                    let r = r.clone();
+                    Some(Box::pin(async move { r.ask(m).await }))
+                }
+                H::Ask(t) => Some(Box::pin(unsafe_extend_ask(t.clone(), m))),
+                _ => None,
+            };
+            let towner = msched::new_owner(&format!("spawned-ask(m{})", msg.id));
+            let (slot, id) = (*slot, msg.id);
+            tokio::spawn(Controlled::new(
+                towner,
+                true,
+                None,
+                None,
+                Box::pin(async move {
+                    let (op, raw) = op_start(OpK::Send(SendKind::Ask), ident, Some(id), slot, "spawned");
+                    match fut {
+                        Some(f) => {
+                            let res = rep(f.await, raw);
+                            op_end(op, res);
+                        }
+                        None => op_end(op, Res::NoHandle),
+                    }
+                }),
+            ));
         }
         Step::SendThen { kind, slot, msg, other, drop_first } => {
             // only the typed / erased tell and ask of M1 messages, the forms the erased handlers offer
@@ -1149,7 +1193,9 @@ async fn exec_send(cx: &mut Cx<'_>, kind: SendKind, slot: u8, spec: &MsgSpec) {
     };
     let (op, raw) = op_start(OpK::Send(kind), h.identity(), Some(spec.id), slot, route);
     if let Some(t) = kind.timeout() {
-        msched::register_deadline(t as u64);
+        if t != u32::MAX {
+            msched::register_deadline(t as u64);
+        }
     }
     let res: Res = match (h, &spec.kind) {
         (H::Strong(r), MsgKind::M1) => {
